@@ -146,6 +146,7 @@ def gen_metric_case(rng, i):
         if rng.random() < 0.15:
             nv = core.dyadic(rng, 8, 2)
             c["norm_value"] = nv if nv != 0 else Fraction(3, 2)
+    c["layout"] = LAYOUTS[(i // 3) % len(LAYOUTS)]
     return c
 
 
@@ -171,6 +172,7 @@ def gen_mismatch_case(rng, i):
     c = {"kind": "metric", "fn": fn, "dw": rng.random() < 0.5, "y": rand_arr(rng, shape), "p": rand_arr(rng, s2)}
     if fn == "nrmse":
         c["norm"] = rng.choice(NORMS)
+    c["layout"] = LAYOUTS[(i // 3) % len(LAYOUTS)]
     return c
 
 
@@ -212,19 +214,50 @@ def store(W, storage):
     return A
 
 
+LAYOUTS = ["C", "F", "Tview", "strided", "Fstrided"]
+
+
+class ArgumentModified(Exception):
+    """A function of observables.py changed the contents of an array supplied by the caller."""
+
+
+def layout_of(A, layout):
+    """The same values as the ndarray A held in another memory layout (all of them perfectly valid ndarrays)."""
+    A = np.asarray(A, dtype=float)
+    if layout == "F":
+        return np.asfortranarray(A.copy())
+    if layout == "Tview" and A.ndim >= 2:                  # column-major *view* of a C-ordered buffer
+        return np.ascontiguousarray(A.T).T
+    if layout in ("strided", "Fstrided"):                  # every second entry of a twice larger buffer: non-contiguous
+        big = np.full(tuple(2 * k for k in A.shape), 7.0, order="F" if layout == "Fstrided" else "C")
+        view = big[tuple(slice(None, None, 2) for _ in A.shape)]
+        view[...] = A
+        return view
+    return np.ascontiguousarray(A.copy())
+
+
+def snapshot(W):
+    return np.array(W.toarray() if hasattr(W, "toarray") else W, dtype=float, order="C", copy=True).tobytes()
+
+
 def call_metric(c):
     O = obsmod()
-    y, p = to_np(c["y"]), to_np(c["p"])
+    y, p = layout_of(to_np(c["y"]), c.get("layout", "C")), layout_of(to_np(c["p"]), c.get("layout", "C"))
+    by, bp = snapshot(y), snapshot(p)
     fn = c["fn"]
-    with np.errstate(all="ignore"):
-        if fn == "mse":
-            return O.mse(y, p, dimensionwise=c["dw"])
-        if fn == "rmse":
-            return O.rmse(y, p, dimensionwise=c["dw"])
-        if fn == "rsquare":
-            return O.rsquare(y, p, dimensionwise=c["dw"])
-        nv = c.get("norm_value")
-        return O.nrmse(y, p, norm=c["norm"], norm_value=None if nv is None else float(Fraction(nv)), dimensionwise=c["dw"])
+    try:
+        with np.errstate(all="ignore"):
+            if fn == "mse":
+                return O.mse(y, p, dimensionwise=c["dw"])
+            if fn == "rmse":
+                return O.rmse(y, p, dimensionwise=c["dw"])
+            if fn == "rsquare":
+                return O.rsquare(y, p, dimensionwise=c["dw"])
+            nv = c.get("norm_value")
+            return O.nrmse(y, p, norm=c["norm"], norm_value=None if nv is None else float(Fraction(nv)), dimensionwise=c["dw"])
+    finally:
+        if snapshot(y) != by or snapshot(p) != bp:
+            raise ArgumentModified("%s modified %s" % (fn, "y_true" if snapshot(y) != by else "y_pred"))
 
 
 def run_impl(c):
@@ -413,6 +446,8 @@ def _judge_metric(c):
     y, p = fr(c["y"]), fr(c["p"])
     try:
         o = run_impl(c)
+    except ArgumentModified as e:
+        return _viol("%s:argument-modified" % c["fn"], "%s (layout %s): a metric must not write into its arguments" % (e, c.get("layout", "C")), c)
     except Exception as e:
         return _viol("%s:exception" % c["fn"], "%s raises %r on arrays of shapes %s / %s" % (c["fn"], e, shape_of(y), shape_of(p)), c)
     if shape_of(y) != shape_of(p):
@@ -457,7 +492,15 @@ def _close(a, b, tol=1e-9):
 def _judge_laws(c):
     """Algebraic consequences, checked on the real functions only (c: {'kind':'laws', y, p, a, b, dw})."""
     O = obsmod()
-    y, p = to_np(c["y"]), to_np(c["p"])
+    y, p = layout_of(to_np(c["y"]), c.get("layout", "C")), layout_of(to_np(c["p"]), c.get("layout", "C"))
+    by, bp = snapshot(y), snapshot(p)
+    v = _judge_laws_body(O, c, y, p)
+    if v is None and (snapshot(y) != by or snapshot(p) != bp):
+        return _viol("metrics:argument-modified", "mse/rmse/nrmse/rsquare wrote into y_true / y_pred (layout %s)" % c.get("layout", "C"), c)
+    return v
+
+
+def _judge_laws_body(O, c, y, p):
     a, b, dw = float(Fraction(c["a"])), float(Fraction(c["b"])), c["dw"]
     kw = {"dimensionwise": dw}
     with np.errstate(all="ignore"):
@@ -586,7 +629,8 @@ def gen_sr_case(rng, i):
             W[k][k] = Fraction(d[k], 4)
         rho = max(abs(Fraction(x, 4)) for x in d)
     lr = rng.choice([Fraction(1), Fraction(1, 2), Fraction(1, 4), Fraction(3, 4), Fraction(1, 8)])
-    return {"kind": "sr", "family": fam, "W": W, "rho": rho if not isinstance(rho, tuple) else ["sqrt", rho[1]], "lr": lr}
+    return {"kind": "sr", "family": fam, "W": W, "rho": rho if not isinstance(rho, tuple) else ["sqrt", rho[1]], "lr": lr,
+            "layout": LAYOUTS[(i // 10) % len(LAYOUTS)]}
 
 
 def _judge_sr(c, tol=1e-6, zero=1e-3):
@@ -602,15 +646,30 @@ def _judge_sr(c, tol=1e-6, zero=1e-3):
         if abs(y) < zero:
             return abs(x) < zero
         return abs(x - y) <= tol * max(1.0, abs(y))
+    import scipy.sparse as sp
+    layout = c.get("layout", "C")
+    W = layout_of(A, layout)                               # the caller's matrix object, in the requested memory layout
+    before = snapshot(W)
     got = {}
-    for st in ("dense", "csr", "csc"):
+    # dense FIRST, then the sparse formats built from the same object, then the same dense object a second time
+    for st in ("dense", "csr", "csc", "dense2"):
         try:
-            got[st] = float(np.real(O.spectral_radius(store(c["W"], st))))
+            if st in ("dense", "dense2"):
+                arg = W
+            else:
+                arg = sp.csr_matrix(W) if st == "csr" else sp.csc_matrix(W)
+            sb = snapshot(arg)
+            got[st] = float(np.real(O.spectral_radius(arg)))
         except Exception as e:
-            if st != "dense" and all(sum(Fraction(v) for v in r) == 0 for r in c["W"]):
+            if st not in ("dense", "dense2") and all(sum(Fraction(v) for v in r) == 0 for r in c["W"]):
                 return _viol("sr:sparse:ones-in-kernel", "spectral_radius raises %r on a sparse matrix whose rows all sum to 0 (the start "
                              "vector v0 = ones is mapped to 0); the dense path returns %r" % (e, got.get("dense")), c, got.get("dense"), repr(e))
             return _viol("sr:%s:exception" % st, "spectral_radius raises %r on a %s %s matrix" % (e, st, c["family"]), c)
+        if snapshot(arg) != sb or snapshot(W) != before:
+            return _viol("sr:argument-modified", "spectral_radius overwrote the %s matrix it was given (memory layout %s, %s family): "
+                         "later measurements of the same object see another matrix" % (st.rstrip("2"), layout, c["family"]), c,
+                         "argument unchanged", {"first_result": got[st], "max_abs_change":
+                                                float(np.max(np.abs(np.asarray(W, dtype=float) - A)))})
     target = exact if exact is not None else ref
     if not same(got["dense"], target):
         return _viol("sr:dense-vs-eigvals", "dense spectral_radius differs from the largest eigenvalue modulus (%s matrix)" % c["family"],
@@ -619,14 +678,21 @@ def _judge_sr(c, tol=1e-6, zero=1e-3):
         if not same(got[st], got["dense"]):
             return _viol("sr:sparse-vs-dense", "spectral_radius of the %s matrix differs from that of the same dense matrix (%s)"
                          % (st, c["family"]), c, got["dense"], got)
+    if not same(got["dense2"], got["dense"]):
+        return _viol("sr:repeat-call-differs", "measuring the same dense matrix object twice gives two different radii (%s, layout %s)"
+                     % (c["family"], layout), c, got["dense"], got)
     lr = float(Fraction(c["lr"]))
     M = lr * A + (1 - lr) * np.eye(len(A))
     eref = float(np.max(np.abs(np.linalg.eigvals(M))))
     for st in ("dense", "csr"):
+        arg = W if st == "dense" else sp.csr_matrix(W)
+        sb = snapshot(arg)
         try:
-            e = float(np.real(O.effective_spectral_radius(store(c["W"], st), lr=lr)))
+            e = float(np.real(O.effective_spectral_radius(arg, lr=lr)))
         except Exception as ex:
             return _viol("esr:exception", "effective_spectral_radius raises %r (%s)" % (ex, st), c)
+        if snapshot(arg) != sb:
+            return _viol("esr:argument-modified", "effective_spectral_radius overwrote the %s matrix it was given (layout %s)" % (st, layout), c)
         if not same(e, eref):
             return _viol("esr:matrix", "effective_spectral_radius(W, lr) is not the spectral radius of lr*W + (1-lr)*I (%s)" % st, c, eref, e)
     return None
@@ -656,12 +722,18 @@ def judge(case):
     return _judge(case["scenario"])
 
 
+_lawn = [0]
+
+
 def gen_law_case(rng):
     shape = rand_shape(rng)
     y = rand_arr(rng, shape)
     p = fmap(y, lambda v: v + core.dyadic(rng, 4, 2)) if rng.random() < 0.5 else rand_arr(rng, shape)
     a = rng.choice([Fraction(1, 2), Fraction(2), Fraction(3), Fraction(-2), Fraction(5, 4), Fraction(-1, 2)])
-    return {"kind": "laws", "y": y, "p": p, "a": a, "b": core.dyadic(rng, 8, 1), "dw": rng.random() < 0.5}
+    c = {"kind": "laws", "y": y, "p": p, "a": a, "b": core.dyadic(rng, 8, 1), "dw": rng.random() < 0.5}
+    _lawn[0] += 1
+    c["layout"] = LAYOUTS[_lawn[0] % len(LAYOUTS)]
+    return c
 
 
 def oracle(ctx, scale=1):
@@ -682,7 +754,9 @@ def oracle(ctx, scale=1):
                     "shape mismatch; algebraic laws on the real functions (rmse^2=mse, mse/rmse/R^2/nrmse under a y + b, perfect and mean "
                     "predictor, dimensionwise = per-column call); spectral_radius dense vs csr vs csc vs np.linalg.eigvals / exactly known "
                     "radius on random, sparse, ring, nilpotent, diagonal, triangular, rotation-pair, constant-row-sum, zero-row-sum and Perron matrices "
-                    "(tol 1e-6, |rho|<1e-3 counts as 0); effective_spectral_radius vs eigvals(lr W + (1-lr) I)"}
+                    "(tol 1e-6, |rho|<1e-3 counts as 0); effective_spectral_radius vs eigvals(lr W + (1-lr) I); every array / matrix is supplied in C, Fortran, "
+                    "transposed-view and strided (non-contiguous) memory layouts, the dense matrix object is measured first, then csr/csc built "
+                    "from the same object, then the same object again, and no function may change the bytes of its arguments"}
 
 
 def replay(payload):
